@@ -193,8 +193,13 @@ def execute(case):
     prev = hist_lens(b)
     trace['init'] = snapshot(b, prev)
     next_id = [1]
-    for op in case['ops']:
+    for op_i, op in enumerate(case['ops']):
         kind = op[0]
+        # with `tzmix`, some of the instants handed to the code are expressed in another time zone (same instants)
+        zone = common.ZONES[(op_i * 7 + len(case['ops'])) % len(common.ZONES)] if case.get('tzmix') and op_i % 2 == 0 else None
+
+        def tz_ts(sec, _z=zone):
+            return common.ts_in(sec, _z)
         pre_quotes = dh.table()
         n_t, n_m = len(taps.txns), len(taps.marks)
         out = 'ok'
@@ -223,16 +228,16 @@ def execute(case):
             elif kind == 'unpx':
                 dh.unset(op[1])
             elif kind == 'update':
-                b.update(ts(op[1]))
+                b.update(tz_ts(op[1]))
             elif kind == 'pfsub':
-                b.portfolios[op[1]].subscribe_funds(ts(op[2]), op[3])
+                b.portfolios[op[1]].subscribe_funds(tz_ts(op[2]), op[3])
             elif kind == 'pfwd':
-                b.portfolios[op[1]].withdraw_funds(ts(op[2]), op[3])
+                b.portfolios[op[1]].withdraw_funds(tz_ts(op[2]), op[3])
             elif kind == 'pfmark':
-                b.portfolios[op[1]].update_market_value_of_asset(op[2], np.float64(op[3]), ts(op[4]))
+                b.portfolios[op[1]].update_market_value_of_asset(op[2], np.float64(op[3]), tz_ts(op[4]))
             elif kind == 'pftxn':
                 b.portfolios[op[1]].transact_asset(
-                    Transaction(op[2], op[3], ts(op[4]), np.float64(op[5]), 'direct', commission=op[6]))
+                    Transaction(op[2], op[3], tz_ts(op[4]), np.float64(op[5]), 'direct', commission=op[6]))
             elif kind == 'q':
                 what, arg = op[1], op[2]
                 if what == 'pfcash':
